@@ -432,6 +432,19 @@ namespace ss
                 }
                 else if (o.kind == "lk")
                 {
+                    if (o.arg(0) % 3 == 2)
+                    {
+                        // the proxy of a const storage object (the const overload of lock()): a size query through it
+                        // runs with the mutex held like everything else, the mutex is free again afterwards
+                        const auto& ca = a;
+                        {
+                            auto cproxy = ca.lock();
+                            (void)cproxy->max_node_size();
+                            sim_yield("proxy.held");
+                            (void)(*cproxy).max_alignment();
+                        }
+                        continue;
+                    }
                     // the lock() proxy: use it, move it, let the moved-to proxy release
                     auto proxy = a.lock();
                     void* p    = nullptr;
